@@ -51,7 +51,11 @@ where
         }
         for (nbr_cost, nbr) in next.drain(..) {
             let off = usize::from(nbr_cost);
-            todo.resize(todo.len() + off + 1, IndexMap::new());
+            // (Make sure bucket `off` exists; growing by `off + 1` for every neighbour made
+            // memory and time grow with the token costs.)
+            if todo.len() <= off {
+                todo.resize(off + 1, IndexMap::new());
+            }
             match todo[off].entry(nbr.clone()) {
                 Entry::Vacant(e) => {
                     e.insert(nbr);
